@@ -355,10 +355,21 @@ func (i *treeInst) Check(hist []string) []core.Violation {
 	return i.cnt.note(toViolations("tree", i.u, hist, kind, false, issues), hist)
 }
 
+// ObservedHighQCOutsideRoot counts states in which HighQC is not under Root (not judged).
+var ObservedHighQCOutsideRoot int64
+
 func toViolations(layer string, u *universe, hist []string, kind string, rootMoved bool, issues []issue) []core.Violation {
 	var out []core.Violation
 	seen := map[string]bool{}
 	for _, is := range issues {
+		// Lead decision: the statement does not require the highest-certified
+		// marker to hang under the committed root; updateCommit's own TODO
+		// (context.go) leaves it on a pruned branch or behind the new root until
+		// the next insert / quorum repairs it. Observed and counted, not judged.
+		if is.family == "high_reachable" && (is.class == "highqc_on_pruned_branch" || is.class == "highqc_behind_committed_root") {
+			atomic.AddInt64(&ObservedHighQCOutsideRoot, 1)
+			continue
+		}
 		key := "c15." + is.family + "." + is.class + ".by_" + causeLabel(is.family, kind, rootMoved)
 		if seen[key] {
 			continue
